@@ -30,9 +30,10 @@ type outTruth struct {
 }
 
 type utxTruth struct {
-	ain   bool
-	outs  []outTruth // per UTXO output, in order
-	spent *ownedOut  // the output a UTXO->UTXO spend consumes
+	ain      bool
+	outs     []outTruth // per UTXO output, in order
+	spent    *ownedOut  // the output a UTXO->UTXO spend consumes
+	withdraw bool       // UTXO -> account output (+ confidential change)
 }
 
 type ownedOut struct {
@@ -218,6 +219,11 @@ func (w *world) genSpend(t *kernel.Tape) (*sent, *types.UTXOTransaction, error) 
 	o := cands[t.Int(len(cands))]
 	a := w.wallets[o.wallet]
 	fee := new(big.Int).Mul(new(big.Int).SetUint64(w.R.App.GetUTXOGas()), gasPrice)
+	withdraw := t.Bool(1, 3) // UTXO -> account output (plus confidential change)
+	if withdraw {
+		// the transfer-fee part depends on the withdrawn amount; reserve the maximum for what an output can hold
+		fee.Add(fee, new(big.Int).Mul(new(big.Int).SetUint64(types.CalNewAmountGas(o.amount, types.EverLiankeFee)), gasPrice))
+	}
 	rest := new(big.Int).Sub(o.amount, fee)
 	if rest.Cmp(new(big.Int).Mul(rate, big.NewInt(4))) < 0 {
 		return nil, nil, nil
@@ -243,6 +249,14 @@ func (w *world) genSpend(t *kernel.Tape) (*sent, *types.UTXOTransaction, error) 
 	asub := 1 + t.Int(2)
 	truth := &utxTruth{spent: o, outs: []outTruth{{bi, bsub, toB}}}
 	dests := []types.DestEntry{&types.UTXODestEntry{Addr: w.wallets[bi].subs[bsub], Amount: toB, IsSubaddress: bsub > 0}}
+	if withdraw {
+		if change.Sign() <= 0 {
+			return nil, nil, nil
+		}
+		truth.outs = nil
+		truth.withdraw = true
+		dests = []types.DestEntry{&types.AccountDestEntry{To: w.users[t.Int(len(w.users))].addr, Amount: toB}}
+	}
 	if change.Sign() > 0 {
 		truth.outs = append(truth.outs, outTruth{o.wallet, asub, change})
 		dests = append(dests, &types.UTXODestEntry{Addr: a.subs[asub], Amount: change, IsSubaddress: true, IsChange: true})
@@ -262,7 +276,7 @@ func (w *world) genSpend(t *kernel.Tape) (*sent, *types.UTXOTransaction, error) 
 	}
 	w.honestUtx[string(raw)] = true
 	o.pending = true
-	s := &sent{kind: kUtx, w: wt, raw: raw, utx: truth, desc: fmt.Sprintf("spend w%d out#%d ring=%d", o.wallet, o.global, len(ring))}
+	s := &sent{kind: kUtx, w: wt, raw: raw, utx: truth, desc: fmt.Sprintf("spend w%d out#%d ring=%d withdraw=%v", o.wallet, o.global, len(ring), withdraw)}
 
 	// the same spend attempted with somebody else's keys
 	var foreign *types.UTXOTransaction
@@ -453,16 +467,61 @@ var utxCatalogue = []utxTamper{
 		return true
 	}},
 	{name: "out-one-time-address", comp: "outputs", ain: true, uin: true, apply: func(x *tamperCtx, tx *types.UTXOTransaction, tr *utxTruth) bool {
-		firstUTXOOut(tx).OTAddr = somePoint(x) // redirect the output
+		o := firstUTXOOut(tx)
+		if o == nil {
+			return false
+		}
+		o.OTAddr = somePoint(x) // redirect the output
 		return true
 	}},
 	{name: "out-remark", comp: "outputs", ain: true, uin: true, apply: func(x *tamperCtx, tx *types.UTXOTransaction, tr *utxTruth) bool {
-		firstUTXOOut(tx).Remark[x.t.Int(32)] ^= byte(1 + x.t.Int(255))
+		o := firstUTXOOut(tx)
+		if o == nil {
+			return false
+		}
+		o.Remark[x.t.Int(32)] ^= byte(1 + x.t.Int(255))
 		return true
 	}},
 	{name: "out-amount-field", comp: "outputs", ain: true, uin: true, apply: func(x *tamperCtx, tx *types.UTXOTransaction, tr *utxTruth) bool {
-		firstUTXOOut(tx).Amount = big.NewInt(int64(1 + x.t.Int(1000)))
+		o := firstUTXOOut(tx)
+		if o == nil {
+			return false
+		}
+		o.Amount = big.NewInt(int64(1 + x.t.Int(1000)))
 		return true
+	}},
+	{name: "out-account-to", comp: "outputs", uin: true, apply: func(x *tamperCtx, tx *types.UTXOTransaction, tr *utxTruth) bool {
+		for _, o := range tx.Outputs {
+			if a, ok := o.(*types.AccountOutput); ok {
+				u := x.w.users[x.t.Int(len(x.w.users))]
+				if u.addr == a.To {
+					return false
+				}
+				a.To = u.addr // the withdrawal goes to somebody else
+				return true
+			}
+		}
+		return false
+	}},
+	{name: "out-account-amount-consistent", comp: "outputs", uin: true, apply: func(x *tamperCtx, tx *types.UTXOTransaction, tr *utxTruth) bool {
+		for _, o := range tx.Outputs {
+			if a, ok := o.(*types.AccountOutput); ok {
+				d := new(big.Int).Mul(rate, big.NewInt(10))
+				if tx.Fee.Cmp(d) <= 0 {
+					return false
+				}
+				// more for the account, less fee: every commitment equation still holds
+				a.Amount = new(big.Int).Add(a.Amount, d)
+				k, err := types.BigInt2Hash(new(big.Int).Div(a.Amount, rate))
+				if err != nil {
+					return false
+				}
+				a.Commit = ringct.ScalarmultH(k)
+				tx.Fee = new(big.Int).Sub(tx.Fee, d)
+				return true
+			}
+		}
+		return false
 	}},
 	{name: "token", comp: "token", ain: true, uin: true, apply: func(x *tamperCtx, tx *types.UTXOTransaction, tr *utxTruth) bool {
 		tx.TokenID = x.w.tokens[x.t.Int(len(x.w.tokens))]
